@@ -35,7 +35,8 @@ RULE = ("program = constructor variant (arrays / lists / int dtype / strided / r
         " Round-5 classes: a copy.deepcopy / pickle duplicate taken mid-program and continued in lock-step with the object; a 'threads' kind (programs replayed concurrently on separate objects)."
         " Round-6 classes: every processing method must return the object it was called on (asserted on every applied operation)."
         " Round-7 classes: rare interpolate(n = 66 000..90 000) steps, resampling to the same number of points."
-        " Round-8 classes: getter results kept by the caller and handed to a second Weaver are guarded across all later operations; first use of the library from several threads at once with untried Weaver programs.")
+        " Round-8 classes: getter results kept by the caller and handed to a second Weaver are guarded across all later operations; first use of the library from several threads at once with untried Weaver programs."
+        " Round-9 classes: read-only views of a table the caller goes on editing are handed in, the table is edited, the stored original must not move.")
 REQUIRED_MONITORS = ["c09:caller_edits_his_table", "c09:getter_results_kept", "threads:weaver", "threads:first_use:weaver_cold", "threads:first_use_yields_injected", "c09:duplicate", "weaver_invariant", "c09:caller_arrays", "c09:original_unchanged", "c09:restore_differential"]
 ASSUMPTIONS = ["operations are generated with admissible arguments only; an exception from such an operation is reported",
                "indices-based truncation is only issued while working and reference series are the same samples"]
